@@ -304,8 +304,10 @@ class Interp:
             return True
         if isinstance(v, (ClassV, FuncV, NativeFn, BoundM, ExtMod, ExtType)):
             return True
-        if isinstance(v, OpaqueStr):
+        if isinstance(v, (OpaqueStr, FmtReal)):
             return True
+        if isinstance(v, SymStr):
+            return bool(v.parts)
         if hasattr(v, "ext_truthy"):
             return v.ext_truthy(self, label)
         raise Unsupported("truthiness of %r" % (v,))
@@ -373,19 +375,61 @@ class Interp:
         except Exception as e:  # pragma: no cover
             raise Unsupported("native == failed: %r" % (e,))
 
+    NUMERIC = set("0123456789.e+-")
+
+    def _symstr_skeleton(self, v):
+        """Tokenise a structured string into non-numeric chunks, known numeric runs and formatted reals.
+
+        Assumption A9-fmt: the default formatting of a finite real is a non-empty string over [0-9.e+-] and is injective.
+        A formatted real must be delimited by non-numeric characters (or the string ends), otherwise the
+        tokenisation would not be unique: Unsupported."""
+        parts = SymStr([v]).parts
+        toks = []
+        for idx, p in enumerate(parts):
+            if isinstance(p, FmtReal):
+                prev_p = parts[idx - 1] if idx > 0 else None
+                next_p = parts[idx + 1] if idx + 1 < len(parts) else None
+                for nb, ch in ((prev_p, -1), (next_p, 0)):
+                    if isinstance(nb, FmtReal):
+                        raise Unsupported("two formatted reals side by side in a string comparison")
+                    if isinstance(nb, str) and nb and nb[ch] in self.NUMERIC:
+                        raise Unsupported("formatted real adjacent to the numeric character %r: ambiguous string comparison" % nb[ch])
+                toks.append(("fmt", p.expr))
+            else:
+                cur, kind = "", None
+                for c in p:
+                    k = "num" if c in self.NUMERIC else "lit"
+                    if k != kind and cur:
+                        toks.append((kind, cur))
+                        cur = ""
+                    kind = k
+                    cur += c
+                if cur:
+                    toks.append((kind, cur))
+        return toks
+
     def _symstr_eq(self, a, b):
         if isinstance(a, OpaqueStr) or isinstance(b, OpaqueStr):
             raise Unsupported("comparison of opaque strings")
         if not isinstance(a, (SymStr, str, FmtReal)) or not isinstance(b, (SymStr, str, FmtReal)):
             return False
-        pa = SymStr([a]).parts
-        pb = SymStr([b]).parts
-        if len(pa) == len(pb) and all(type(x) is type(y) for x, y in zip(pa, pb)):
-            if any(isinstance(x, str) and x != y for x, y in zip(pa, pb)):
-                # same shape, different literal text: the strings differ unless number spellings absorb it (not modelled)
-                raise Unsupported("symbolic string comparison with different literal parts")
-            return s_and(*[x.expr == y.expr for x, y in zip(pa, pb) if isinstance(x, FmtReal)])
-        raise Unsupported("symbolic string comparison of different shapes")
+        ta, tb = self._symstr_skeleton(a), self._symstr_skeleton(b)
+        if len(ta) != len(tb):
+            return False
+        conds = []
+        for (ka, va), (kb, vb) in zip(ta, tb):
+            if ka == "lit" or kb == "lit":
+                if ka != kb or va != vb:
+                    return False
+            elif ka == "num" and kb == "num":
+                if va != vb:
+                    return False
+            elif ka == "fmt" and kb == "fmt":
+                conds.append(va == vb)
+            else:
+                f, text = (va, vb) if ka == "fmt" else (vb, va)
+                conds.append(self._fmt_eq(FmtReal(f), text))
+        return s_and(*conds)
 
     def _fmt_eq(self, a, b):
         if isinstance(a, FmtReal) and isinstance(b, FmtReal):
@@ -1593,6 +1637,12 @@ class Interp:
                 return len(v.keys)
             if isinstance(v, (str, tuple)):
                 return len(v)
+            if isinstance(v, FmtReal):
+                return _PositiveLen()
+            if isinstance(v, SymStr):
+                if any(isinstance(q, FmtReal) or q for q in v.parts):
+                    return _PositiveLen()
+                return 0
             if hasattr(v, "ext_len"):
                 return v.ext_len(I)
             if isinstance(v, Obj):
@@ -1882,6 +1932,23 @@ class Interp:
         if isinstance(c, Sink):
             raise Unsupported("isinstance against uninterpreted type")
         raise Unsupported("isinstance(%r, %r)" % (v, c))
+
+
+class _PositiveLen:
+    """len() of a string that is certainly non-empty but of unknown length"""
+
+    def ext_eq(self, I, other):
+        if isinstance(other, int) and other <= 0:
+            return False
+        raise Unsupported("length of a symbolic string compared with %r" % (other,))
+
+    def ext_compare(self, I, op, other):
+        if isinstance(other, int) and other <= 0:
+            return op in (ast.Gt, ast.GtE)
+        raise Unsupported("length of a symbolic string compared with %r" % (other,))
+
+    def ext_truthy(self, I, label):
+        return True
 
 
 class _PyType:
